@@ -4,6 +4,13 @@
 (* machine M and the Dec18 operators (diagnostic, `div`).  Deterministic and total:      *)
 (* every line is consumed, the model re-synchronises on the logged state, violations are *)
 (* accumulated as signatures.                                                            *)
+(* Two kinds of scenario: the coinomics EndBlocker alone on a scripted context (events   *)
+(* endblock / set_* / ext_supply), and whole blocks of a chain driven through ABCI       *)
+(* (event block: BeginBlock with evidence and absent validators, signed transactions,    *)
+(* EndBlock of every module in the order of app.go, Commit; harness/coinchain.go).  A    *)
+(* block line carries `pre` (state read before the application's EndBlock), `gov` (the   *)
+(* parameter changes of the proposals that this EndBlock moved from the voting period to  *)
+(* PASSED, read from the gov store) and `post` (state after EndBlock).                   *)
 EXTENDS Coinomics
 
 VARIABLES l, viol, div, nscn
@@ -55,6 +62,28 @@ TraceNext ==
                  /\ div' = div \cup
                       (LET r == MResult(st, e.ev, e.args) IN
                        IF r.post = e.post THEN {} ELSE {Div("post-state:" \o FirstDiff(r.post, e.post), e)})
+            [] e.ev = "block" ->
+                 LET inp == BlockInputs(e.pre, e.post, e.gov)
+                     ts  == e.args.ts
+                     gn  == GhostNext(e, inp, e.post, gh)
+                     lbl(k) == IF k = "first-block-after-activation-minted" THEN ClassOf(k, e, inp, e.post, gh)
+                               ELSE ClassOf(k, e, inp, e.post, gh) \o "," \o BlockClass(e.pre, e.post, e.gov)
+                 IN
+                 /\ nscn' = nscn
+                 /\ st' = e.post
+                 /\ gh' = gn
+                 /\ viol' = viol \cup {Sig(k, lbl(k), e) : k \in BlockBroken(e.pre, e.post, gh, e.gov, ts)
+                                                              \cup (IF e.ok THEN {} ELSE {"endblock-panicked"})}
+                 /\ div' = div
+                      \* BeginBlock and the transactions of the scenarios neither mint nor burn, and the
+                      \* coinomics state is written by its end blocker only
+                      \cup (IF e.pre.supply = st.supply /\ e.pre.prevTs = st.prevTs /\ e.pre.max = st.max
+                               /\ e.pre.enabled = st.enabled /\ e.pre.coeff = st.coeff
+                            THEN {} ELSE {Div("block-body", e)})
+                      \* the parameter changes read from the gov store explain the parameters after the block
+                      \cup (IF GovCoeff(e.pre.coeff, e.gov) = e.post.coeff THEN {} ELSE {Div("gov-observation", e)})
+                      \cup (LET m == MBlockEnd(e.pre, e.gov, e.post.bonded, ts) IN
+                            IF m = e.post THEN {} ELSE {Div("post-state:" \o FirstDiff(m, e.post), e)})
             [] OTHER ->
                  \* environment steps are performed by the harness itself: a mismatch is a
                  \* harness problem, never a verdict
